@@ -12,6 +12,7 @@ pub assume_specification<T, U>[Option::<T>::and::<U>](a: Option<T>, b: Option<U>
     ensures r == (if a.is_some() { b } else { None::<U> });
 
 //@include ghost_pass_bfs.rs
+//@include ghost_lm_dead.rs
 
 //@impl src/nfa_builder.rs impl<L, V> NfaBuilder<L, V>
 //@mono L=u8
@@ -189,12 +190,13 @@ pub assume_specification<T, U>[Option::<T>::and::<U>](a: Option<T>, b: Option<U>
         lemma_trie_gives_tree(n0);
         assert(pctx(n0)) by { reveal(pctx); }
         lemma_lm_start(n0);
+        lemma_sem_start(n0);
     }
 //@}
 //@loopiter 1 it1
 //@loop 1{
     invariant *self == n0, pctx(n0), fresh_links(n0), n0.states@.len() > 2, vstd::std_specs::btree::key_obeys_cmp_spec::<u8>(),
-        q@.len() == it1.index@, lm_inv(n0, n0, q@),
+        q@.len() == it1.index@, lm_inv(n0, n0, q@), lm_sem(n0, n0, q@), lm_marked(n0, n0, q@, 0),
         ({ let rem = it1.snapshot@.remaining(); let e0 = nfa_edges(n0, 0);
            &&& rem.len() == e0.len()
            &&& exists|ks: Seq<u8>| ks.no_duplicates() && ks.len() == rem.len()
@@ -214,6 +216,7 @@ pub assume_specification<T, U>[Option::<T>::and::<U>](a: Option<T>, b: Option<U>
         let k = q@.len() - 1;
         assert(e0.contains_key(ks[k]));
         lemma_lm_push_root_child(n0, q@.drop_last(), ks[k]);
+        lemma_sem_push_root_child(n0, q@.drop_last(), ks[k]);
         assert(q@ =~= q@.drop_last().push(e0[ks[k]]));
     }
 //@}
@@ -228,7 +231,7 @@ pub assume_specification<T, U>[Option::<T>::and::<U>](a: Option<T>, b: Option<U>
 //@}
 //@loop 2{
     invariant pctx(n0), 2 < n0.states@.len() <= u32::MAX as nat + 1, vstd::std_specs::btree::key_obeys_cmp_spec::<u8>(), 0 <= qi <= q@.len(),
-        bfs_inv(n0, q@, qi as int, Set::<u8>::empty()), lm_inv(n0, *self, q@),
+        bfs_inv(n0, q@, qi as int, Set::<u8>::empty()), lm_inv(n0, *self, q@), lm_sem(n0, *self, q@), lm_marked(n0, *self, q@, qi as int),
     decreases n0.states@.len() - qi,
 //@}
 //@loopbody 2{
@@ -245,6 +248,12 @@ pub assume_specification<T, U>[Option::<T>::and::<U>](a: Option<T>, b: Option<U>
         if ba.states@[state_id as int].output.is_some() && set_fail(ba, *self, state_id as int, 1) {
             lemma_lm_mark(n0, ba, *self, q@, state_id as int);
         }
+        // the dead link of a state that carries an output is its final link; a state without output keeps the link its parent gave it
+        if n0.states@[state_id as int].output.is_some() {
+            if set_fail(ba, *self, state_id as int, 1) { lemma_sem_mark(n0, ba, *self, q@, qi - 1); }
+        } else if *self == ba {
+            lemma_sem_nomark(n0, ba, q@, qi - 1);
+        }
         lemma_lm_frame(n0, *self, q@);
     }
     // the link of the state being handled does not change while its children are handled
@@ -253,7 +262,7 @@ pub assume_specification<T, U>[Option::<T>::and::<U>](a: Option<T>, b: Option<U>
 //@loopiter 3 it3
 //@loop 3{
     invariant pctx(n0), 2 < n0.states@.len() <= u32::MAX as nat + 1, vstd::std_specs::btree::key_obeys_cmp_spec::<u8>(), 1 <= qi <= q@.len(), state_id == q@[qi - 1], 2 <= state_id < n0.states@.len(),
-        lm_inv(n0, *self, q@), bfs_inv(n0, q@, qi - 1, ps), self.states@[state_id as int].fail == sf,
+        lm_inv(n0, *self, q@), bfs_inv(n0, q@, qi - 1, ps), self.states@[state_id as int].fail == sf, lm_sem(n0, *self, q@), lm_marked(n0, *self, q@, qi as int),
         ({ let rem = it3.snapshot@.remaining(); let e = nfa_edges(n0, state_id as int);
            &&& rem.no_duplicates()
            &&& forall|i: int| 0 <= i < rem.len() ==> e.contains_key(*(#[trigger] rem[i]).0) && e[*rem[i].0] == *rem[i].1
@@ -288,17 +297,24 @@ pub assume_specification<T, U>[Option::<T>::and::<U>](a: Option<T>, b: Option<U>
                 lemma_fail_from_nd(n0, state_id as int, c, f, r);
             }
         }
+        // the link of the state being handled is final: dead exactly if dead_sem
+        lemma_sem_final(n0, *self, q@, qi as int, qi - 1);
+        if f == 1 { lemma_dead_child(n0, state_id as int, c); }
+        else { lemma_within_init(n0, state_id as int, f); lemma_max_init(n0, state_id as int, c, f); lemma_depth_is_path_len(n0, f); lemma_depth_is_path_len(n0, state_id as int); }
     }
 //@}
 //@loop 4{
     invariant pctx(n0), 2 < n0.states@.len() <= u32::MAX as nat + 1, vstd::std_specs::btree::key_obeys_cmp_spec::<u8>(), 1 <= qi <= q@.len(), state_id == q@[qi - 1], 2 <= state_id < n0.states@.len(),
-        lm_inv(n0, *self, q@), bfs_inv(n0, q@, qi - 1, ps), self.states@[state_id as int].fail == sf,
+        lm_inv(n0, *self, q@), bfs_inv(n0, q@, qi - 1, ps), self.states@[state_id as int].fail == sf, lm_sem(n0, *self, q@), lm_marked(n0, *self, q@, qi as int),
         2 <= child_id < n0.states@.len(), nfa_depth(n0, child_id as int) == nfa_depth(n0, state_id as int) + 1,
         0 <= fail_id < n0.states@.len(), fail_id != 1, nfa_depth(n0, fail_id as int) < nfa_depth(n0, state_id as int),
         fail_id == 0 || in_q(q@, fail_id as int),
         nfa_edges(n0, state_id as int).contains_key(c), nfa_edges(n0, state_id as int)[c] == child_id,
         forall|r: int| #[trigger] nd_ok(n0, fail_id as int, c, r) ==> fail_ok(n0, child_id as int, r),
-    ensures link_ok(n0, child_id as int, new_fail_id as int),
+        // every registered occurrence inside the parent's path lies inside the suffix the chase is at; no longer proper suffix continues with c
+        is_suffix(path(n0, fail_id as int), path(n0, state_id as int)),
+        within(n0, path(n0, state_id as int), path(n0, fail_id as int).len() as int), chase_max(n0, state_id as int, c, path(n0, fail_id as int).len() as int),
+    ensures link_ok(n0, child_id as int, new_fail_id as int), lm_dead_link(n0, child_id as int, new_fail_id as int),
     decreases nfa_depth(n0, fail_id as int),
 //@}
 //@loopbody 4{
@@ -309,14 +325,24 @@ pub assume_specification<T, U>[Option::<T>::and::<U>](a: Option<T>, b: Option<U>
             lemma_path_child(n0, f, c);
             lemma_chase_edge(n0, f, c);
             lemma_link_from_fail_ok(n0, child_id as int, nfa_edges(n0, f)[c] as int);
+            lemma_depth_is_path_len(n0, f); lemma_depth_is_path_len(n0, state_id as int);
+            lemma_sem_edge(n0, state_id as int, c, f);
         } else if f == 0 {
             lemma_chase_root(n0, c);
             lemma_link_from_fail_ok(n0, child_id as int, 0);
+            assert(path(n0, 0).len() == 0);
+            lemma_sem_root(n0, state_id as int, c);
         } else {
             lemma_lm_get(n0, *self, q@, f);
             let g = self.states@[f].fail as int;
+            // f is strictly shallower than the state being handled: its link is final
+            assert(q_basic(n0, q@));
+            lemma_sem_final_shallow(n0, *self, q@, qi as int, f);
+            if g == 1 { lemma_sem_dead(n0, state_id as int, c, f); }
             if g != 1 {
                 lemma_link_facts(n0, f, g);
+                lemma_within_step(n0, state_id as int, f, g); lemma_max_step(n0, state_id as int, c, f, g);
+                lemma_suffix_trans(path(n0, g), path(n0, f), path(n0, state_id as int));
                 if g >= 2 { lemma_shallow_in_q(n0, q@, qi - 1, ps, g); }
                 assert forall|r: int| #[trigger] nd_ok(n0, g, c, r) implies fail_ok(n0, child_id as int, r) by {
                     lemma_chase_step(n0, f, c, g, r);
@@ -331,6 +357,9 @@ pub assume_specification<T, U>[Option::<T>::and::<U>](a: Option<T>, b: Option<U>
         if set_fail(b0, *self, child_id as int, new_fail_id) && link_ok(n0, child_id as int, new_fail_id as int) && q@ == q0.push(child_id) {
             lemma_lm_set(n0, b0, *self, q0, child_id, new_fail_id);
         }
+        if set_fail(b0, *self, child_id as int, new_fail_id) && lm_dead_link(n0, child_id as int, new_fail_id as int) && q@ == q0.push(child_id) {
+            lemma_sem_set(n0, b0, *self, q0, qi as int, child_id, new_fail_id);
+        }
         ps = ps.insert(c);
     }
 //@}
@@ -340,7 +369,7 @@ pub assume_specification<T, U>[Option::<T>::and::<U>](a: Option<T>, b: Option<U>
     }
 //@}
 //@after 1 while qi{
-    proof { lemma_lm_finish(n0, *self, q@); }
+    proof { lemma_lm_finish(n0, *self, q@); lemma_sem_finish(n0, *self, q@); }
 //@}
 //@fn build_outputs
 //@rules R28 R9 R5
@@ -355,6 +384,7 @@ pub assume_specification<T, U>[Option::<T>::and::<U>](a: Option<T>, b: Option<U>
         assert(octx(n0, q@)) by { reveal(octx); }
         lemma_outs_start(n0, q@);
         lemma_outs_sound_start(n0, q@);
+        lemma_outs_inh_start(n0, q@);
         lemma_octx_entry(n0, q@, 0);
     }
 //@}
@@ -362,7 +392,7 @@ pub assume_specification<T, U>[Option::<T>::and::<U>](a: Option<T>, b: Option<U>
 //@loop 1{
     invariant octx(n0, q@), 0 <= it1.index@ <= q@.len(),
         it1.snapshot@.remaining().len() == q@.len(), forall|i: int| 0 <= i < q@.len() ==> *(#[trigger] it1.snapshot@.remaining()[i]) == q@[i],
-        outs_inv(n0, *self, q@, it1.index@ as int), outs_sound(n0, *self, q@, it1.index@ as int),
+        outs_inv(n0, *self, q@, it1.index@ as int), outs_sound(n0, *self, q@, it1.index@ as int), outs_inh(n0, *self, q@, it1.index@ as int),
         ac_fail(n0) ==> outs_ac(n0, *self, q@, it1.index@ as int),
 //@}
 //@loopbody 1{
@@ -380,12 +410,13 @@ pub assume_specification<T, U>[Option::<T>::and::<U>](a: Option<T>, b: Option<U>
         if outs_step_rel(n0, b0, *self, q@, i0) {
             lemma_outs_step(n0, b0, *self, q@, i0);
             lemma_outs_sound_step(n0, b0, *self, q@, i0);
+            lemma_outs_inh_step(n0, b0, *self, q@, i0);
             if ac_fail(n0) { lemma_outs_ac_step(n0, b0, *self, q@, i0); }
         }
     }
 //@}
 //@after 1 for verif_ref1{
-    proof { lemma_outs_finish(n0, *self, q@); lemma_outs_sound_finish(n0, *self, q@); }
+    proof { lemma_outs_finish(n0, *self, q@); lemma_outs_sound_finish(n0, *self, q@); lemma_outs_inh_finish(n0, *self, q@); if lm_dead_ok(n0) { lemma_dead_ok_frame(n0, *self); } }
 //@}
 //@endimpl
 
